@@ -83,20 +83,20 @@ def S(xs):
 ALLM = ["none", "fwd", "rev"]
 
 
-def fq(BTip, FTips, NC, M1, C1, T1, M2=("none",), C2=(0,), T2=(), P=(True, False), BadAll=False):
+def fq(BTip, FTips, NC, M1, C1, T1, M2=("none",), C2=(0,), T2=(), P=(True, False), BadAll=False, PH=()):
     return dict(BTip=BTip, FTips=S(FTips), NC=NC, Modes1=S(M1), Caps1=S(C1), Targets1=S(T1),
-                Modes2=S(M2), Caps2=S(C2), Targets2=S(T2), Persists=S(P), BadAll=BadAll)
+                Modes2=S(M2), Caps2=S(C2), Targets2=S(T2), Persists=S(P), BadAll=BadAll, PHBlocks=S(PH))
 
 
 # (module, spec dir, driver test, [(scenario name, constants, random walks (n, depth))])
 CONFIGS = {
     ("C05", "quick"): ("FilterQuery", SPEC_F, "TestVerifFilterQueryReplay", [
-        ("single", fq(4, [2, 4], 1, ALLM, [0, 2], range(0, 6)), None),
-        ("two-callers", fq(2, [2], 2, ["none", "fwd"], [0], [1, 2], ["none", "rev"], [0], [1, 2], P=[True]), None),
+        ("single", fq(4, [2, 4], 1, ALLM, [0, 2], range(0, 6), PH=[2]), None),
+        ("two-callers", fq(2, [2], 2, ["none", "fwd"], [0], [1, 2], ["none", "rev"], [0], [1, 2], P=[True], PH=[1]), None),
     ]),
     ("C05", "thorough"): ("FilterQuery", SPEC_F, "TestVerifFilterQueryReplay", [
-        ("single", fq(5, [3, 4, 5], 1, ALLM, [0, 1, 2, 3, 5], range(0, 7), BadAll=True), (3000, 40)),
-        ("two-callers", fq(3, [2, 3], 2, ALLM, [0], range(1, 5), ["none", "rev"], [0], range(1, 4), P=[True]), (2000, 40)),
+        ("single", fq(5, [3, 4, 5], 1, ALLM, [0, 1, 2, 3, 5], range(0, 7), BadAll=True, PH=[1, 3, 5]), (3000, 40)),
+        ("two-callers", fq(3, [2, 3], 2, ALLM, [0], range(1, 5), ["none", "rev"], [0], range(1, 4), P=[True], PH=[2]), (2000, 40)),
     ]),
     ("C06", "quick"): ("BlockQuery", SPEC_B, "TestVerifBlockQueryReplay", [
         ("calls", dict(NB=2, NP=3, MaxCalls=2, MaxResp=0), None),
@@ -283,6 +283,9 @@ def free_scenarios(module, consts, n, rng, silent_share, chatter_share=0.0, forc
             persist = rng.choice(ev(consts["Persists"]))
             init = {"ret": [-9, -9], "cache": [0] * (bt + 1), "db": [1] + [0] * bt, "wq": [0] * (bt + 1),
                     "cx": 0, "dx": 0, "wx": 0, "btip": bt, "ftip": ftip, "persist": 1 if persist else 0}
+            phs = ev(consts["PHBlocks"]) if consts.get("PHBlocks", "{}") != "{}" else []
+            if phs and rng.random() < 0.3:
+                init["db"][rng.choice(phs)] = 2      # a placeholder entry in the database
             tgt = rng.choice(ev(consts["Targets1"]))
             m = rng.choice(ev(consts["Modes1"]))
             cp = rng.choice(ev(consts["Caps1"]))
